@@ -443,9 +443,35 @@ fn shape(root: &Node) -> Vec<(u64, u16, usize)> {
     l.iter().map(|n| (n.id(), n.node_type(), n.children().len())).collect()
 }
 
+/// all chunks of a stream of a view without asynchronous parts, concatenated (`None` if a chunk is
+/// not synchronously available)
+fn collect_sync(mut b: tachys::ssr::StreamBuilder) -> Option<String> {
+    let mut out = String::new();
+    for chunk in b.take_chunks() {
+        match chunk {
+            tachys::ssr::StreamChunk::Sync(s) => out.push_str(&s),
+            _ => return None,
+        }
+    }
+    Some(out)
+}
+
 pub fn run(c: &Sexp) -> Sexp {
     ndom::set_html_parser(parse_nodes);
     ndom::clear_errors();
+    if c.at(0).num() == 1 {
+        // case (1 view): the in-order and out-of-order streamed forms of a view without
+        // asynchronous parts are the synchronous string
+        let v = dec_view(c.at(1));
+        let html = mk(&v).to_html();
+        let ino = collect_sync(mk(&v).to_html_stream_in_order());
+        let ooo = collect_sync(mk(&v).to_html_stream_out_of_order());
+        return Lst(vec![
+            Sexp::from_str(&html),
+            Sexp::bool(ino.as_deref() == Some(html.as_str())),
+            Sexp::bool(ooo.as_deref() == Some(html.as_str())),
+        ]);
+    }
     let v1 = dec_view(c.at(1));
     let v2 = dec_view(c.at(2));
     let html = mk(&v1).to_html();
